@@ -1,6 +1,7 @@
 package world
 
 import (
+	"encoding/json"
 	"fmt"
 	"reflect"
 	"sort"
@@ -205,6 +206,66 @@ func (r *ResSpec) Wrapped() *jsonapi.Wrapper {
 	fill()
 
 	return jsonapi.Wrap(pv.Interface())
+}
+
+// HandPayload writes the resource object of the spec as JSON without running any
+// code of the library (so that process-wide state of the library stays cold):
+// attributes through encoding/json (base64 for bytes, RFC 3339 for times, null
+// for nil), relationships as linkage objects. fields selects what is written
+// (nil: everything).
+func (r *ResSpec) HandPayload(fields []string) []byte {
+	want := func(f string) bool {
+		if fields == nil {
+			return true
+		}
+
+		for _, x := range fields {
+			if x == f {
+				return true
+			}
+		}
+
+		return false
+	}
+
+	attrs := map[string]interface{}{}
+
+	for _, a := range r.Type.Attrs {
+		if want(a.Name) {
+			attrs[a.Name] = CloneValue(r.Vals[a.Name])
+		}
+	}
+
+	rels := map[string]interface{}{}
+
+	for _, rel := range r.Type.Rels {
+		if !want(rel.Name) {
+			continue
+		}
+
+		switch v := r.Vals[rel.Name].(type) {
+		case string:
+			if v == "" {
+				rels[rel.Name] = map[string]interface{}{"data": nil}
+			} else {
+				rels[rel.Name] = map[string]interface{}{"data": map[string]string{"type": rel.ToType, "id": v}}
+			}
+		case []string:
+			l := []map[string]string{}
+			for _, id := range v {
+				l = append(l, map[string]string{"type": rel.ToType, "id": id})
+			}
+
+			rels[rel.Name] = map[string]interface{}{"data": l}
+		}
+	}
+
+	b, err := json.Marshal(map[string]interface{}{"type": r.Type.Name, "id": r.ID, "attributes": attrs, "relationships": rels})
+	if err != nil {
+		panic(core.HarnessBug{Value: "HandPayload: " + err.Error()})
+	}
+
+	return b
 }
 
 // Materialise builds the library resource of the spec's own kind.
